@@ -110,6 +110,7 @@ func NewExplorer(prog *ssa.Program, h *ssa.Function) *Explorer {
 	registerNatives(ex)
 	registerSQL(ex)
 	registerFactomNatives(ex)
+	registerBlobs(ex)
 	return ex
 }
 
